@@ -2,6 +2,11 @@
 import json, os
 V = os.path.dirname(os.path.dirname(os.path.abspath(__file__)))
 CHECKS = {
+ 'C14': dict(
+   technique='Coq proof over a hand-written name-addressed Factor model (any value type, any scalar op) + differential correspondence of the extracted model against mbi.Factor/CliqueVector',
+   text='Theorems (Props/C14.v): for every pair of factors over arbitrarily ordered/overlapping attribute lists and every scalar operation, each model operation (expand, transpose, binary ops through the merged domain, in-place variants, sum/max/logsumexp aggregation, project, condition, elementwise maps, CliqueVector combine) yields at every joint assignment the scalar operation applied to the operands\' values at that assignment, with result axes in the stated order; in-place = pure. The extracted model runs against the code on random factors (exact comparison; log-space ops after exp at 1e-9) on every run; a by-name Python oracle decides whether a disagreement is a property failure.',
+   design='4/C14',
+   note='Trusted: Coq kernel, extraction+driver, harness. numpy reshape/moveaxis/broadcast_to/sum(axis)/indexing are MODELLED by name-addressed tabulation (not verified) and tied by the correspondence. Axioms: none, except functional_extensionality_dep under C14_sum_is_sum_vars.'),
  'C15': dict(
    technique='Coq proof over a hand-written model (contingency-table and domain laws, any semiring) + differential correspondence of the extracted model against mbi.Dataset/mbi.Domain',
    text='Theorems (Props/C15.v) prove for every domain, record list, weight vector and projection list that the model\'s datavector is the contingency table in row-major order, that projection commutes with marginalise+transpose and carries weights, mass preservation, and the Domain set/product laws; the extracted model is run against the code on random domains/datasets with exact rational comparison on every run.',
